@@ -80,3 +80,17 @@ def groups_contiguous(p, sizes):
     ptr = np.concatenate([[0], np.cumsum(sizes)]).astype(np.int32)
     idx = np.arange(p, dtype=np.int32)
     return ptr.tolist(), idx.tolist()
+
+
+def groups_random(rng, p, max_size=4, permuted=True):
+    """Random group structure; with permuted=True the feature indices of a group are interleaved
+    and listed in arbitrary order (grp_indices is then NOT the identity)."""
+    sizes = []
+    left = p
+    while left > 0:
+        k = int(min(left, rng.integers(1, max_size + 1)))
+        sizes.append(k)
+        left -= k
+    ptr = np.concatenate([[0], np.cumsum(sizes)]).astype(np.int32)
+    idx = rng.permutation(p).astype(np.int32) if permuted else np.arange(p, dtype=np.int32)
+    return ptr.tolist(), idx.tolist()
